@@ -1,17 +1,27 @@
 """C19 — exported source code denotes the same expression as the program.
 
-translator (clang AST of every display() -> Vita/C19/GenTemplates.lean) + Lean proofs over the
-extracted table (Vita/C19/Props.lean) + correspondence on generated programs x four formats:
+translators (clang AST of every display() -> Vita/C19/GenTemplates.lean; of the print-format enums,
+the out:: manipulators, operator<<(i_mep) and operator<<(team) -> Vita/C19/GenExport.lean) + Lean
+proofs over the extracted tables (Vita/C19/Props.lean) + correspondence on generated GENOMES x four
+formats (a program is handed to vita as the matrix genome_(row, category): several active genes per
+row, one gene referenced from several parents / argument positions, chains, inactive loci filled with
+random valid genes, equal symbols shared between genes):
 
-  * the text printed by the real `out::X_language << i_mep` equals the Lean model of
-    language() (sequential replace_all, outer parentheses stripped);
+  * the text printed by the real `out::X_language << i_mep` equals the Lean model of language()
+    reading genes by LOCUS (sequential replace_all, outer parentheses stripped); the model's own
+    unfolding of the genome equals the generator's tree; is_valid() = wfRows;
   * the Lean executable parser applied to vita's text returns the program's tree (every
     function node = its template's tree with each hole replaced by the complete argument tree);
   * independent oracles (no Lean involved): the text equals a Python simultaneous substitution
     into the *compiled* display() strings; clang's AST of the C / C++ text equals clang's AST of
     the fully parenthesised substitution (ParenExpr removed); Python's `ast` likewise;
     gcc compiles the C text (batched) and the compiled expression returns, bit for bit, what
-    `vita::run` returns on every input vector (programs whose constants print exactly).
+    `vita::run` returns on every input vector (programs whose constants print exactly);
+  * teams: `out::X_language << team<i_mep>` = the members' texts, one per line (Python and the
+    extracted team loop run by the model);
+  * stream histories: after any sequence of manipulators / prints / fresh streams a print shows the
+    format of the last format manipulator (Python last-wins oracle) and the flag / callee the Lean
+    stream model predicts.
 """
 import ast as pyast
 from fractions import Fraction
@@ -1081,7 +1091,7 @@ def run(chk, replay=None):
                                 q, q0, q1 = rng.choice(gps)
                                 qpos = rng.choice([i for i, x in enumerate(g.arg_doms(q, q0, q1)) if x == rd])
                                 add(g.apply(q, q0, q1, {qpos: node}), "pair-nested")
-        nrand = 1200 if quick else 25000
+        nrand = 1200 if quick else 20000
         for i in range(nrand):
             g = g_exact if i % 2 == 0 else g_any
             add(g.tree(rng.choice(["R", "R", "R", "S", "I", "B"]), rng.between(2, 6), 0.8), "random")
@@ -1122,7 +1132,7 @@ def run(chk, replay=None):
         # genomes filled the way vita fills them (every locus a random gene of its category): the
         # program is a DAG – one gene is the argument of several parents / of several positions of one
         # parent – and several genes of a row are active
-        for i in range(500 if quick else 8000):
+        for i in range(500 if quick else 6000):
             g = g_exact if i % 2 == 0 else g_any
             nd = rng.between(1, 5)
             doms = [rng.choice(["R", "R", "S", "I", "B"])]
@@ -1158,7 +1168,7 @@ def run(chk, replay=None):
                 add(t, "chain")
         # the same program in other layouts (the text must not depend on the layout)
         base = [pid for pid, (t, o) in enumerate(programs) if t[0] == "F" and pid not in genomes]
-        for i in range(400 if quick else 6000):
+        for i in range(400 if quick else 5000):
             pid = rng.choice(base)
             t = programs[pid][0]
             add(t, "relayout", layout(g_exact, rng, t, rng.choice(["packed", "spread"]), rng.choice(["all", "some"])))
@@ -1280,7 +1290,7 @@ def run(chk, replay=None):
             for f in range(4):
                 dl.append("gchk %d %s %s" % (f, hx(texts[pid][f]), tt))
                 keys.append((pid, f))
-        step = max(1, (len(dl) + 2) // 3)
+        step = max(1, (len(dl) + 3) // 4)
         dj = [ex.submit(C.run_driver, "c19_driver", dl[i:i + step]) for i in range(0, len(dl), step)]
     cj = [ex.submit(clang_job, "c", 0), ex.submit(clang_job, "cpp", 1)]
     gj = [ex.submit(gcc_job, i) for i in range(len(batches))]
@@ -1699,10 +1709,17 @@ def run(chk, replay=None):
     return chk.finish(
         level="proof",
         checker_cmd="lake build Vita.C19.Props && lake env lean <#print axioms for every theorem>",
-        rule="programs: every type-compatible (parent, argument position, child symbol / terminal kind) triple at the root "
-             "and below a random grandparent, random typed trees, nested conditionals, string constants with special "
-             "characters; x 4 formats; distinct = distinct (program, format) with at least one function node",
-        trusted=["Lean 4.33 kernel", "tools/translate_templates.py + cxx2lean.py (clang-14 JSON AST -> template table)",
+        rule="genomes (full matrix rows x categories, best locus [0,0], inactive loci = random valid genes, equal "
+             "symbols shared): every type-compatible (parent, argument position, child symbol / terminal kind) triple at "
+             "the root and below a random grandparent, random typed trees, nested conditionals, string constants with "
+             "special characters, each laid out chain / packed (several active genes per row) / spread with sub-expression "
+             "sharing none / all / some; random genomes filled as vita fills them; long chains; re-layouts of the same "
+             "program; x 4 formats; teams of the last k individuals; random stream histories; distinct = distinct "
+             "(genome, format) with at least one function node",
+        trusted=["Lean 4.33 kernel", "tools/translate_templates.py + cxx2lean.py (clang-14 JSON AST -> template table, "
+                 "print-format enumerators, manipulator stores, operator<< switch, team loop)",
+                 "hand model of language() on genomes (Vita.C19.Genome.langG), tied by text equality on every generated genome",
+                 "std::ios_base::iword semantics (fresh stream = 0, independent streams)",
                  "the C / Python expression grammars as encoded by Vita.C19.Syntax (`ok`): validated against clang-14 "
                  "and python3 parsers on every generated case, not proved",
                  "gcc 12 / glibc libm for the compile-and-run oracle", "harness/c19_lang.cc"])
